@@ -7,7 +7,7 @@
    [read_row fixed es row] the trace read path (OutputQuery) on a stored row.
    Accepted spans have 16-byte trace ids and 8-byte span ids (onSpan rejects every other width): part of [row_of]. *)
 From Coq Require Import List ZArith NArith Bool String Permutation.
-From Qryn Require Import model.Spans model.SpansChunk model.SpansWire model.SpansStore model.SpansJson model.SpansWireX proofs.SpansWireXProofs proofs.SpansProofs proofs.SpansChunkProofs
+From Qryn Require Import model.Spans model.SpansChunk model.SpansWire model.SpansStore model.SpansJson model.SpansWireX model.SpansWireY proofs.SpansWireXProofs proofs.SpansWireYProofs proofs.SpansProofs proofs.SpansChunkProofs
   proofs.SpansTimeProofs proofs.SpansWireProofs proofs.SpansStoreProofs proofs.SpansJsonProofs proofs.SpansNumProofs.
 Import ListNotations.
 Open Scope Z_scope.
@@ -281,3 +281,26 @@ Theorem events_status_read_back : forall s x, span_wire_ok s = true -> extra_ok 
   option_map (fun p => read_extra (snd p)) (dec_spanx (enc_spanx s x)) = Some (read_extra x).
 Proof. exact read_extra_of_bytes. Qed.
 Print Assumptions events_status_read_back.
+
+(* ---- every field of the stored span.  Besides its events and status a span carries trace_state (3), dropped_attributes_count (10),
+   dropped_events_count (12), links (13: ids, trace_state, attributes, dropped count, flags), dropped_links_count (14) and flags (16);
+   the write path re-marshals them untouched, INTERLEAVED with the other fields in field-number order ([enc_spany]).  For every span,
+   every events/status and every such further fields of the stated domain (uint32 counts and flags) the stored bytes decode back to
+   exactly what was pushed; [dec_spany] reads each part with the decoder that knows it, all others skipping it. *)
+Theorem payload_decode_encode_all_fields : forall s x y,
+  span_wire_ok s = true -> extra_ok x = true -> more_ok y = true -> dec_spany (enc_spany s x y) = Some (s, x, y).
+Proof. exact dec_enc_spany. Qed.
+Print Assumptions payload_decode_encode_all_fields.
+
+(* the span decoder of SpansWire reads its span from ANY well-formed field list whose fields numbered 1, 2, 4-9 are the span's: whatever else
+   a client (or a later protocol version) puts into the message, in whatever position, does not change the ids, times, name, kind and
+   attributes that are read back *)
+Theorem span_decoder_skips_other_fields : forall s F,
+  span_wire_ok s = true -> Forall wf_field F -> filter (by_num span_keep) F = fields_span s -> dec_span (ser_fields F) = Some s.
+Proof. exact dec_span_among. Qed.
+Print Assumptions span_decoder_skips_other_fields.
+
+(* a span without further fields has the bytes of the events/status model: the two encodings agree where both apply *)
+Theorem all_fields_extends_events_status : forall s x, enc_spany s x no_more = enc_spanx s x.
+Proof. exact enc_spany_no_more. Qed.
+Print Assumptions all_fields_extends_events_status.
